@@ -41,7 +41,11 @@ def make_env(case, rep=0, facet=False, cplx=False, mode="poly", max_cond=50.0):
 def make_two_sided(case, rep=0, cplx=False, mode="poly"):
     w = case["world"]
     rng = np.random.default_rng([int(case.get("env_seed", 0)), rep, 77])
-    return two_sided(rng, w["cell"], seed=int(case.get("env_seed", 0)) * 7 + rep, cplx=cplx, mode=mode, gdim=w["gdim"])
+    try:
+        return two_sided(rng, w["cell"], seed=int(case.get("env_seed", 0)) * 7 + rep, cplx=cplx, mode=mode, gdim=w["gdim"])
+    except RuntimeError as ex:
+        # (no well-shaped neighbour cell found for this random '+' cell in 200 attempts)
+        raise Discard("geometry:" + str(ex)[:30])
 
 
 class Guard:
